@@ -30,11 +30,16 @@ What is PROVED here, for all states / requests / oracles (no size bound):
 What is proved by counterexample (`decide` on the model, replayed on the real code by corpus/C14/*.ops): the two
 repaired defects on the snapshot order, and the four recorded findings on today's code (incl. the 500 case of
 all-or-none).
-What is only STATED (`…_stmt`): the two statements that are FALSE of today's code (rejected-leaves-catalogue and
-all-or-none for answers 500), kept next to their counterexamples.
+  * answers 500 (`answer_500_effects_characterised`): for every handler but the template update, exactly what a 500
+    leaves — inside the decidable clause `leaves500` the catalogue of the accepted request with the task not executing,
+    outside it nothing; batch tasks: three-way start outcome (`start_outcome_is_oracle`,
+    `batching_refused_is_not_executing`).
+What is only STATED (`…_stmt`): all-or-none for template updates answered 500 (FALSE of today's code), kept next to its
+counterexample.
 -/
 import Kap.Proofs.C14Full
 import Kap.Proofs.C14Fault
+import Kap.Proofs.C14Five
 namespace Kap.Props.C14
 open Kap.C14
 
@@ -176,12 +181,144 @@ theorem executing_iff_enabled_and_started (w : World) (c : Cat) (h : RInv w c) (
   | none => simp
   | some t => simp
 
-/-- Rejected requests at full strength (answers 500 included) — FALSE of today's code
-(`start_failure_leaves_enabled_not_executing`, `rollback_keeps_new_dbrps_and_template`); proved for 400/404 as
-`rejected_request_leaves_no_trace`. -/
-def rejected_request_leaves_catalogue_stmt : Prop :=
-  ∀ (env : Env) (fail : List String) (w : World) (op : Op),
-    (handle Variant.fixed env fail w op).2 ≠ .ok → (handle Variant.fixed env fail w op).1.view = w.view
+/-- **What an answer 500 leaves behind** — the positive form of "a rejected request leaves the catalogue unchanged",
+which is FALSE for answers 500 as worded (`start_failure_leaves_enabled_not_executing`). For every handler except the
+template update, every state in which the view shows the catalogue (`RInv`), every oracle: when the request is answered
+500, the view afterwards shows EXACTLY `effect500` — inside the decidable clause `leaves500` (the definition could be
+committed: new ID free; and the start the request attempts — it becomes enabled, or is renamed while enabled — is
+refused by the oracle: start OR batching) the catalogue of the ACCEPTED request, i.e. the definition is stored as
+enabled and the task is not executing (finding start-failure-after-commit, now a theorem); outside the clause NOTHING
+changed (rename onto a taken ID). Delete, template create / delete, restart and run-time death are never answered 500
+in the fault-free semantics (their 500s need a storage fault: `…_under_fault`). The driver's KNOWN clause
+start-failure-after-commit evaluates `leaves500` / `effect500` on the observed answer. -/
+theorem answer_500_effects_characterised (env : Env) (fail : List String) (w : World) (c : Cat) (op : Op)
+    (h : RInv w c) (hnt : ∀ id n s, op ≠ .tupdate id n s)
+    (hf : (handle Variant.fixed env fail w op).2 = .fail) :
+    DInv (handle Variant.fixed env fail w op).1.view (effect500 env fail c op) ∧
+    (leaves500 env fail c op = false → (handle Variant.fixed env fail w op).1.view = w.view) := by
+  have hd := handle_500 env fail w c op h.ei h.d hnt hf
+  refine ⟨hd, fun hl => ?_⟩
+  -- outside the clause the view is literally unchanged: tasks, templates, executing set from DInv, associations
+  -- from the per-handler closed forms (only create / update can answer 500)
+  cases op with
+  | create id r =>
+    exfalso
+    simp only [handle] at hf
+    have := (createTask_500 env fail w c id r h.ei h.d hf).1
+    simp [leaves500, this, renameTaken] at hl
+  | update id r =>
+    simp only [handle] at hf ⊢
+    unfold updateTask at hf ⊢
+    split at hf
+    · cases hf
+    · rename_i orig ho
+      split at hf
+      · cases hf
+      · rename_i script m hus
+        obtain ⟨hm, hscript⟩ := updateScript_some hus
+        have htm : w.store.tmpls = c.tmpls := h.d.tmpls
+        have hs : script = updateScriptOf c orig r := by
+          rw [hscript, hm]; unfold updateScriptOf; rw [htm]
+        dsimp only at hf ⊢
+        simp only [show Variant.fixed.assocEarly = false from rfl, Bool.and_false, Bool.false_eq_true, if_false] at hf ⊢
+        split at hf
+        · cases hf
+        · rename_i upd hv
+          have hupd : upd = updateDef env c orig r := by
+            rw [updateValidate_ok hv]; exact updateRecord_eq_def env c orig r script m hm hs
+          have hmt : m = (updateDef env c orig r).tmpl := by rw [hm]; rfl
+          rw [hupd, hmt] at hf ⊢
+          replace hf : (updateCommit Variant.fixed env fail w id (updateId id r) orig (updateDef env c orig r)
+              (needsReassoc Variant.fixed id (updateId id r) orig (updateDef env c orig r).tmpl)).2 = .fail := hf
+          show (updateCommit Variant.fixed env fail w id (updateId id r) orig (updateDef env c orig r)
+              (needsReassoc Variant.fixed id (updateId id r) orig (updateDef env c orig r).tmpl)).1.view = w.view
+          by_cases hsd : (storeDefinition w id (updateId id r) (updateDef env c orig r)).2 = true
+          · -- stored and answered 500 ⇒ inside the clause: contradiction
+            exfalso
+            have htasks : w.store.tasks = c.tasks := h.d.tasks
+            have hfresh : id ≠ updateId id r → w.store.tasks (updateId id r) = none := by
+              intro hne
+              have := hsd
+              rw [storeDefinition_ok w id _ _ orig ho, if_pos hne] at this
+              cases hx : w.store.tasks (updateId id r)
+              · rfl
+              · rw [hx] at this; simp at this
+            have hidle : (updateDef env c orig r).enabled = true → (orig.enabled = false ∨ id ≠ updateId id r) →
+                w.exec (updateId id r) = false := by
+              intro _ hor
+              by_cases hid : id = updateId id r
+              · rcases hor with hoe | hne
+                · rw [← hid]; exact View.EI.not_exec_disabled h.ei (t := orig) ho hoe
+                · exact absurd hid hne
+              · exact View.EI.not_exec h.ei (hfresh hid)
+            obtain ⟨hresp, _⟩ := updateCommit_closed env fail w id (updateId id r) orig (updateDef env c orig r) ho hsd hidle
+            rw [hresp] at hf
+            have hc : c.tasks id = some orig := by rw [← htasks]; exact ho
+            by_cases hcnd : (updateDef env c orig r).enabled = true ∧ (orig.enabled = false ∨ id ≠ updateId id r) ∧
+                startOK env fail (updateId id r) (updateDef env c orig r) = false
+            · obtain ⟨hue, hor, hk⟩ := hcnd
+              have hcnd2 : ((updateDef env c orig r).enabled && (!orig.enabled || decide (updateId id r ≠ id))) = true := by
+                rcases hor with hoe | hne
+                · simp [hue, hoe]
+                · have : updateId id r ≠ id := fun e => hne e.symm
+                  simp [hue, this]
+              have hor' : orig.enabled = false ∨ ¬ updateId id r = id := by
+                rcases hor with hoe | hne
+                · exact Or.inl hoe
+                · exact Or.inr (fun e => hne e.symm)
+              have hnt' : renameTaken c (.update id r) = false := by
+                simp only [renameTaken]
+                by_cases hid : id = updateId id r
+                · simp [← hid]
+                · rw [← htasks, hfresh hid]; simp
+              simp [leaves500, devStartFail, attempted, hc, hcnd2, hk, hnt'] at hl
+              rw [if_pos ⟨hue, hor'⟩] at hl
+              simp [hk] at hl
+            · rw [if_neg hcnd] at hf; cases hf
+          · unfold updateCommit
+            have hnot : (!(storeDefinition w id (updateId id r) (updateDef env c orig r)).2) = true := by simp [hsd]
+            rw [if_pos hnot]
+            exact storeDefinition_failed w id _ _ orig ho hsd
+  | delete id => simp only [handle, deleteTask_ok] at hf; cases hf
+  | tcreate id s =>
+    have := handle_500 env fail w c (.tcreate id s) h.ei h.d hnt hf
+    exfalso
+    simp only [handle, createTemplate] at hf
+    split at hf
+    · cases hf
+    · rename_i hn
+      split at hf
+      · cases hf
+      · rw [tmplCreate_ok] at hf; simp at hn; simp [hn] at hf
+  | tupdate id n s => exact absurd rfl (hnt id n s)
+  | tdelete id => simp only [handle, deleteTemplate] at hf; cases hf
+  | restart => simp only [handle] at hf; cases hf
+  | die id => simp only [handle, dieTask_ok] at hf; cases hf
+
+/-- Non-vacuity: on the reachable state with the stored batch task `a` (disabled), enabling it with dbrps that do not
+cover its query is answered 500 inside the clause (batching refused); renaming it onto the taken ID `b` while a start
+would be refused is answered 500 outside the clause. -/
+def batchBase : List Req :=
+  [ ⟨.create "a" { script := "b1", dbrps := ["db.rp"] }, [], none⟩,
+    ⟨.create "b" { script := "b0", dbrps := ["db.rp"], status := some true }, [], none⟩ ]
+
+example : (handle Variant.fixed demoEnv [] (run Variant.fixed demoEnv batchBase) (.update "a" { status := some true })).2 = .fail ∧
+    leaves500 demoEnv [] (runBoth demoEnv batchBase ({}, {})).2 (.update "a" { status := some true }) = true ∧
+    ((effect500 demoEnv [] (runBoth demoEnv batchBase ({}, {})).2 (.update "a" { status := some true })).tasks "a").map (·.enabled) = some true ∧
+    (effect500 demoEnv [] (runBoth demoEnv batchBase ({}, {})).2 (.update "a" { status := some true })).executing "a" = false ∧
+    (run Variant.fixed demoEnv batchBase).exec "b" = true ∧
+    (handle Variant.fixed demoEnv [] (run Variant.fixed demoEnv batchBase) (.update "a" { newId := "b", status := some true })).2 = .fail ∧
+    leaves500 demoEnv [] (runBoth demoEnv batchBase ({}, {})).2 (.update "a" { newId := "b", status := some true }) = false := by
+  decide
+
+/-- **A template update onto a taken template ID is answered 500 and leaves nothing** (the one 500 of
+handleUpdateTemplate outside the rollback cases; those — finding template-update-rollback-incomplete — are
+characterised by the model only: `rollback_keeps_new_dbrps_and_template`). -/
+theorem template_update_onto_taken_id_leaves_nothing (env : Env) (fail : List String) (w : World) (id newId script os : String)
+    (hos : w.store.tmpls id = some os) (hne : newId ≠ "" ∧ newId ≠ id) (htk : (w.store.tmpls newId).isSome = true)
+    (hacc : tmplAccepts env os (if script ≠ "" then script else os) = true) :
+    (updateTemplate env fail w id newId script).2 = .fail ∧ (updateTemplate env fail w id newId script).1.view = w.view :=
+  updateTemplate_taken env fail w id newId script os hos hne htk hacc
 
 /-! ### Template update: all or none -/
 
